@@ -50,6 +50,15 @@ ATOMS = [
     ("array(1, 2)", arr(INT, 2)), ("array(True, False)", arr(BOOL, 2)),
     ("(array(1, 2), 3)", tup(arr(INT, 2), INT)), ("(array(1, 2), True)", tup(arr(INT, 2), BOOL)),
 ]
+# arguments that are themselves calls of generic functions whose result type is not (fully) determined by
+# their own arguments; ("var", "?") is replaced by a fresh variable per argument position
+OPEN = ("var", "?")
+OPEN_ATOMS = [
+    ("mk1()", OPEN), ("mk(1)", tup(INT, OPEN)), ("mk(True)", tup(BOOL, OPEN)), ("idf(1)", INT), ("idf(mk1())", OPEN),
+    ("(1, mk1())", tup(INT, OPEN)), ("mkarr()", arr(OPEN, 2)),
+]
+OPEN_DECLS = ("@guppy.declare\ndef mk1[B]() -> B: ...\n\n@guppy.declare\ndef mk[A, B](x: A) -> tuple[A, B]: ...\n\n"
+              "@guppy.declare\ndef idf[A](x: A) -> A: ...\n\n@guppy.declare\ndef mkarr[B]() -> array[B, 2]: ...\n\n")
 
 # signatures: list of parameter types
 SIGS = {
@@ -72,11 +81,22 @@ def walk(t, s):
     return t
 
 
+def occurs(v, t, s):
+    t = walk(t, s)
+    if t[0] == "var":
+        return t[1] == v
+    return any(occurs(v, x, s) for x in t[1:] if isinstance(x, tuple))
+
+
 def unify(a, b, s):
-    """b is ground.  Returns the extended substitution or None."""
-    a = walk(a, s)
+    """Full first-order unification (variables on both sides).  Returns the extended substitution or None."""
+    a, b = walk(a, s), walk(b, s)
+    if a == b:
+        return s
     if a[0] == "var":
-        return {**s, a[1]: b}
+        return None if occurs(a[1], b, s) else {**s, a[1]: b}
+    if b[0] == "var":
+        return None if occurs(b[1], a, s) else {**s, b[1]: a}
     if a[0] != b[0]:
         return None
     if a[0] in ("int", "bool"):
@@ -99,8 +119,8 @@ def _owned(t):
 def program(sig, args, mode):
     params = ", ".join(f"p{i}: {show(t)}{_owned(t)}" for i, t in enumerate(SIGS[sig]))
     # declared only: no body, so nothing but the call itself can be rejected
-    src = f"@guppy.declare\ndef callee[T, S]({params}) -> None: ...\n\n" if "S" in params else \
-          f"@guppy.declare\ndef callee[T]({params}) -> None: ...\n\n"
+    src = OPEN_DECLS + f"@guppy.declare\ndef callee[T, S]({params}) -> None: ...\n\n" if "S" in params else \
+          OPEN_DECLS + f"@guppy.declare\ndef callee[T]({params}) -> None: ...\n\n"
     body = []
     if mode == "literal":
         call = ", ".join(a for a, _ in args)
@@ -118,7 +138,28 @@ def items():
         for args in itertools.product(ATOMS, repeat=len(ptys)):
             for mode in ("literal", "variable"):
                 out.append((sig, [list(a) for a in args], mode))
+        # at least one open argument (only written directly in the call: a variable cannot hold a value of
+        # undetermined type)
+        small = [a for a in ATOMS if a[0] in ("1", "True", "(1, 2)", "(1, True)", "array(1, 2)")]
+        for args in itertools.product(small + OPEN_ATOMS, repeat=len(ptys)):
+            if any(a in OPEN_ATOMS for a in args):
+                out.append((sig, [list(a) for a in args], "literal"))
     return out
+
+
+def _fresh(t, i):
+    if t == OPEN:
+        return ("var", f"?{i}")
+    if t[0] in ("tuple", "array"):
+        return (t[0], *[_fresh(x, i) if isinstance(x, tuple) else x for x in t[1:]])
+    return t
+
+
+def _ground(t, s):
+    t = walk(t, s)
+    if t[0] == "var":
+        return False
+    return all(_ground(x, s) for x in t[1:] if isinstance(x, tuple))
 
 
 def _tt(x):
@@ -130,11 +171,14 @@ def run_item(item):
     sig, args, mode = item
     args = [(a, _tt(t)) for a, t in args]
     s = {}
-    for p, (_, at) in zip(SIGS[sig], args):
+    argtys = [_fresh(at, i) for i, (_, at) in enumerate(args)]
+    for p, at in zip(SIGS[sig], argtys):
         s = unify(p, at, s)
         if s is None:
             break
     exists = s is not None
+    if exists and not all(_ground(at, s) for at in argtys + list(SIGS[sig])):
+        exists = "undetermined"        # an instantiation exists but the arguments do not fix it: either verdict
     o, mod = gload.run_src(program(sig, args, mode))
     try:
         if o.kind == "crash":
@@ -153,6 +197,7 @@ def run_part(ctx):
     res = ctx.pmap(run_item, its, chunk=32)
     acc = rej = 0
     titles = {}
+    und = {}
     for it, (got, exists, detail) in zip(its, res):
         sig, args, mode = it
         desc = f"callee[{', '.join(show(p) for p in SIGS[sig])}]({', '.join(a for a, _ in args)}) [{mode} arguments]"
@@ -160,6 +205,8 @@ def run_part(ctx):
             ctx.violation(f"b:crash:{sig}:{mode}", f"{desc}: compiler crashed: {detail}", {"part": "b", "item": it})
         elif got == "invalid-hugr":
             ctx.violation(f"b:invalid-hugr:{sig}:{mode}", f"{desc}: accepted, HUGR does not validate", {"part": "b", "item": it})
+        elif exists == "undetermined":
+            und[got] = und.get(got, 0) + 1
         elif got == "accepted":
             acc += 1
             if not exists:
@@ -170,14 +217,15 @@ def run_part(ctx):
             rej += 1
             titles[detail] = titles.get(detail, 0) + 1
             if exists:
-                ctx.violation(f"b:rejected-although-instantiation-exists:{sig}:{mode}",
+                open_arg = ":open-argument" if any(a in [x[0] for x in OPEN_ATOMS] for a, _ in args) else ""
+                ctx.violation(f"b:rejected-although-instantiation-exists{open_arg}:{sig}:{mode}",
                               f"{desc}: rejected ({detail}) although an instantiation exists", {"part": "b", "item": it})
-    return {"b_generic_calls": len(its), "b_accepted": acc, "b_rejected": rej, "b_rejection_titles": titles,
+    return {"b_generic_calls": len(its), "b_accepted": acc, "b_rejected": rej, "b_rejection_titles": titles, "b_undetermined_instantiation_either_verdict": und,
             "b_signatures": {k: [show(p) for p in v] for k, v in SIGS.items()}}
 
 
 def replay(ctx, item):
     got, exists, detail = run_item(tuple(item["item"]))
-    return {"violation": got in ("crash", "invalid-hugr") or (got == "accepted") != exists,
+    return {"violation": got in ("crash", "invalid-hugr") or (exists != "undetermined" and (got == "accepted") != exists),
             "got": got, "instantiation_exists": exists, "detail": detail,
             "source": program(item["item"][0], [(a, _tt(t)) for a, t in item["item"][1]], item["item"][2])}
